@@ -14,6 +14,68 @@ def size_problems(o, by_design):
     return []
 
 
+SIZE_PREAMBLE = r"""
+From PV Require Import SizeModels.
+Fixpoint nl_eqb (a b : list nat) : bool :=
+  match a, b with [] , [] => true | x :: t, y :: u => Nat.eqb x y && nl_eqb t u | _, _ => false end.
+(* the recorded generation sizes of one real run vs the model iterated from the recorded initial size *)
+Inductive case := KSize (m : smodel) (P : nat) (sizes : list nat).
+Definition check (c : case) : bool :=
+  match c with KSize m P sizes =>
+    match sizes with [] => false | n0 :: rest => nl_eqb rest (map (fun k => iterate (step_of P n0 m) k n0) (seq 1 (length rest))) end end.
+"""
+
+# optimizer -> (privates to read back, model literal from (cfg, privates))
+SIZE_MODELS = {
+    "CuckooSearchOptimization": (["__n_cut"], lambda c, p: f"(MCuckoo {p['__n_cut']})"),
+    "MonarchButterflyOptimization": (["__np1"], lambda c, p: f"(MMonarch {c['keep']} {p['__np1']})"),
+    "EarthwormsOptimization": ([], lambda c, p: f"(MEarthworms {c['keep']})"),
+    "BrainStormOptimization": ([], lambda c, p: f"(MClustered {c['m_clusters']})"),
+    "ImprovedBrainStormOptimization": ([], lambda c, p: f"(MClustered {c['m_clusters']})"),
+    "HenryGasSolubilityOptimization": ([], lambda c, p: f"(MClustered {c['n_clusters']})"),
+    "CoyotesOptimization": ([], lambda c, p: f"(MCoyotes {c['num_coyotes']})"),
+    "ElephantHerdOptimization": ([], lambda c, p: f"(MElephant {c['n_clans']})"),
+    "GeneticAlgorithmOptimization": ([], lambda c, p: "MGenetic"),
+    "FireHawkOptimization": (["__hn"], lambda c, p: f"(MFireHawk {p['__hn']})"),
+    "BacterialForagingOptimization": ([], lambda c, p: "MBacterial"),
+    "WaterCycleOptimization": ([], lambda c, p: f"(MWaterCycle {c['nsr']})"),
+}
+
+
+def size_model_correspondence(ctx, n_per_opt):
+    """real runs of the irregular optimizers over population sizes (multiples and non-multiples of the documented scale) and perturbed integer / fractional
+    parameters: the size of every recorded generation vs the hand size model evaluated in Coq"""
+    from .. import search, coq
+    r = ctx.rng
+    jobs = []
+    for nm, (privs, _) in SIZE_MODELS.items():
+        base = search.fixture_scale(nm)
+        P0 = base["population_size"]
+        for i in range(n_per_opt):
+            P = r.choice([P0, int(P0 * 1.5), 2 * P0, 3 * P0, P0 + 1, P0 + 2, P0 + 3, P0 + 5, 2 * P0 + 1]) if i else P0
+            cfg = {"population_size": P, "max_cycles": r.choice([1, 2, 3, 5]), "fitness_error": None}
+            for k, v in base.items():
+                if k in ("population_size", "max_cycles", "fitness_error"): continue
+                if isinstance(v, float) and 0 < v < 1 and r.random() < 0.5: cfg[k] = round(min(0.95, max(0.05, v * r.uniform(0.4, 1.8))), 3)
+                if isinstance(v, int) and not isinstance(v, bool) and k in ("keep", "m_clusters", "n_clusters", "num_coyotes", "n_clans", "nsr") and r.random() < 0.5:
+                    cfg[k] = max(1, v + r.choice([-1, 1, 2]))
+            jobs.append({"opt": nm, "cfg": cfg, "privates": privs, "task": search.cont_task(obj=r.choice(["sphere", "rastrigin"]), seed=r.randint(0, 10**6), dim=r.choice([2, 3]))})
+    obs = search.run_jobs(jobs)
+    items, metas = [], []
+    skipped = 0
+    for o in obs:
+        if not o["ok"]:
+            skipped += 1; continue                      # a rejected configuration or a crash (C06's business): no size observation
+        j = o["job"]
+        full = dict(o["config_after"])                 # the validated configuration, defaults included
+        lit = SIZE_MODELS[j["opt"]][1](full, o.get("privates", {}))
+        sizes = [len(g) for g in o["evolution"]]
+        items.append(f"KSize {lit} {full['population_size']}%nat [" + "; ".join(f"{x}%nat" for x in sizes) + "]")
+        metas.append({"opt": j["opt"], "cfg": j["cfg"], "model": lit, "sizes": sizes, "job": j})
+    res = coq.run_cases("C10", SIZE_PREAMBLE, items, "check")
+    return items, metas, res, skipped
+
+
 def run(ctx, info):
     from .. import search
     from ..expected import load_expectations
@@ -31,7 +93,22 @@ def run(ctx, info):
                                     "dropped_from_regular": sorted(set(e["size_regular"]) - set(regular_now)), "fingerprint_changed": changed, "unpinned_irregular": unpinned}
     for n in changed + unpinned:
         ctx.broke(f"size-model:{n}", f"the population-affecting statements of {n} differ from the ones its size behaviour was reviewed against (fingerprint {sks[n]['fingerprint']})")
-    ctx.ties = {"algos": st.get("algos"), "gen_generate_agents": st.get("gen_generate_agents"), "gen_init_population": st.get("gen_init_population")}
+    ctx.ties = {"algos": st.get("algos"), "gen_generate_agents": st.get("gen_generate_agents"), "gen_init_population": st.get("gen_init_population"),
+                "SizeModels.v (12 irregular optimizers)": "hand model; source fingerprint + vm_compute correspondence of generation sizes"}
+    missing_models = sorted(set(irregular) - set(SIZE_MODELS))
+    for n in missing_models:
+        ctx.broke(f"size-model:{n}", f"{n} is size-irregular and has no hand size model in SizeModels.v")
+    items, metas, res, skipped = size_model_correspondence(ctx, 6 if ctx.quick else 60)
+    for e_ in res["errors"]:
+        ctx.broke("correspondence:C10 size-model case evaluation", e_)
+    for i in res["bad"][:6]:
+        m = metas[i]
+        P = m["cfg"]["population_size"]
+        ctx.broke(f"correspondence:SizeModels.{m['model']} vs {m['opt']} (population_size={P})", f"recorded generation sizes {m['sizes']} differ from the model's prediction")
+    ctx.add_cover(len(items), len({(m["opt"], json.dumps(m["cfg"], sort_keys=True)) for m in metas}), "generation sizes of the 12 irregular optimizers (sizes 1x-3x and non-multiples, perturbed "
+                  "integer and fractional parameters, 1-5 cycles) vs the hand size models of SizeModels.v evaluated in Coq; crashed / rejected configurations are not size observations",
+                  [metas[0] if metas else None, metas[-1] if metas else None])
+    ctx.coverage["size_model_correspondence"] = {"cases": res["n"], "disagreements": len(res["bad"]), "not_observed": skipped}
     r = ctx.rng
     jobs = []
     focus = set(changed + unpinned) | (set(e["size_regular"]) - set(regular_now))
